@@ -642,6 +642,18 @@ pub fn run(s: &Scn, ctx: &mut RunCtx, prefix: &'static str) -> RunOutput {
                 format!("request {} reached the inner service {} times", i, my_calls.len()),
             );
         }
+        // nobody waits longer than max_wait: a caller that got its slot later than that should
+        // have been rejected at the deadline (a slot freed exactly at the deadline may go either way)
+        if let (Some(mw), Some(c)) = (eff_max_wait, my_calls.first()) {
+            let deadline = arr_us(i) + mw * 1000;
+            if c.start_us > deadline + total_jump * 1000 {
+                world::violation(
+                    "C07.reject_instant",
+                    "admitted_after_max_wait",
+                    format!("caller {} arrived at {}us, max_wait {}ms, but was kept waiting and admitted at {}us", i, arr_us(i), mw, c.start_us),
+                );
+            }
+        }
         match t.status {
             Status::Resolved => {
                 let o = t.out.as_ref().unwrap();
